@@ -72,6 +72,15 @@ T.update({
                 ref="DESIGN.md 6/C19", note=REGMC_NOTE + " rustc's derive(Debug) defines the standard struct format."),
 })
 
+T.update({
+    'C15': dict(engine='regmc', technique="exhaustive compile-time tables (rustc's const evaluator runs every generated const fn over all 2^N states for N<=8) compared entry by entry with run-time execution",
+                text="For a cross-section of layouts and bitenums, `static` tables over the whole state space (N<=8; alphabets above) are computed in const context for raw_value, every getter, every with_, builder chains + build(), ZERO, DEFAULT, new() and both enum conversions; a non-const generated fn fails the build with E0015 (reported as a violation); every entry is compared with the same call at run time.",
+                ref="DESIGN.md 6/C15", note=REGMC_NOTE + " The const evaluator of rustc 1.95 is trusted to be the 'const context'."),
+    'C18': dict(engine='declmc', technique="bounded-exhaustive enumeration of a documented layout cross-section x 4 crate-level regimes compiled by rustc, plus a syn scan of the -Zunpretty=expanded token stream",
+                text="Several hundred documented structs and enums covering every feature are compiled under #![no_std], #![deny(missing_docs)], #![forbid(unsafe_code)] and all three; the macro-expanded source is parsed and every path/unsafe token checked (no unsafe outside compiler derives, nothing rooted outside core/arbitrary_int).",
+                ref="DESIGN.md 6/C18", note=DECL_NOTE),
+})
+
 
 def main():
     sys.path.insert(0, os.path.join(ROOT, "engine"))
